@@ -9,6 +9,7 @@ from .. import gen, ref
 from ..build import Ctx, J, T, make_graph
 from ..core import Violation
 from ..gen import prob
+from ..observe import arun as _arun
 
 ID = "C16"
 LEVEL = "exploration"
@@ -146,7 +147,7 @@ def _run(runner_kind, g, vals, runner=None, **kw):
             if runner_kind == "sync":
                 res = (runner or SyncRunner()).run(g, dict(vals), **kw)
             else:
-                res = asyncio.run((runner or AsyncRunner()).run(g, dict(vals), **kw))
+                res = _arun((runner or AsyncRunner()).run(g, dict(vals), **kw))
             out = _outcome(res)
         except Exception as e:  # noqa: BLE001
             out = Outcome("raised", None, e)
@@ -322,7 +323,7 @@ def _part_e(case, ev):
             if case["runner"] == "sync":
                 res = SyncRunner().map(g, {"n": [vals["n"], vals["n"]]}, map_over="n", **kw)
             else:
-                res = _aio.run(AsyncRunner().map(g, {"n": [vals["n"], vals["n"]]}, map_over="n", **kw))
+                res = _arun(AsyncRunner().map(g, {"n": [vals["n"], vals["n"]]}, map_over="n", **kw))
         outs_ += [(f"map[{i}]", _outcome(r)) for i, r in enumerate(res)]
     for which, o in outs_:
         if o.status != "completed":
@@ -563,7 +564,7 @@ def check_case(case, ev):
                 if case["runner"] == "sync":
                     res = SyncRunner().map(g2, {**vals, mp: [vals[mp]]}, map_over=mp, **mkw)
                 else:
-                    res = _aio.run(AsyncRunner().map(g2, {**vals, mp: [vals[mp]]}, map_over=mp, **mkw))
+                    res = _arun(AsyncRunner().map(g2, {**vals, mp: [vals[mp]]}, map_over=mp, **mkw))
             except Exception as e:  # noqa: BLE001
                 raise Violation("c16.map_differs_from_run", f"[{tag}] run() completed with {J(out2.values)} but the one-item map() raised {type(e).__name__}: {str(e)[:200]}", how="raised") from None
         if len(res) != 1 or res[0].status.value != "completed" or dict(res[0].values) != out2.values:
